@@ -164,30 +164,78 @@ func c12ParseNats(f string) []int {
 	return out
 }
 
+// The draining body is reached along one of the ways the library offers (the case's own fields choose):
+//
+//	0  client.KeepAliveTransport(rt).RoundTrip — on a wrapper that has answered (and seen the end of) another
+//	   exchange before; the harness reads and closes
+//	1  client.New, Runtime.Transport = rt, EnableConnectionReuse, Submit: the response reader makes the Read
+//	   calls, Submit closes
+//	2  client.NewWithClient with a preset http.Client{Transport: rt}, EnableConnectionReuse, Submit
+//	3  client.NewWithClient with a preset http.Client without transport, Runtime.Transport = rt,
+//	   EnableConnectionReuse, Submit
 func c12ExecD(in []string) []string {
 	u := &c12Under{rest: []byte(proto.UnB(in[1])), termErr: in[2] == "gx", sched: c12ParseSched(in[3])}
-	tr := client.KeepAliveTransport(c12RTFunc(func(req *http.Request) (*http.Response, error) {
-		return &http.Response{StatusCode: 200, Body: u, Request: req}, nil
-	}))
-	resp, err := tr.RoundTrip(&http.Request{Method: "GET", URL: &url.URL{Scheme: "http", Host: "x", Path: "/"}})
-	if err != nil {
-		panic(err)
-	}
+	first := true
+	script := c12RTFunc(func(req *http.Request) (*http.Response, error) {
+		if first {
+			first = false
+			return &http.Response{StatusCode: 200, Body: io.NopCloser(strings.NewReader("an exchange before")), Request: req}, nil
+		}
+		return &http.Response{StatusCode: 200, Status: "200 OK", Proto: "HTTP/1.1", ProtoMajor: 1, ProtoMinor: 1, Body: u, Request: req}, nil
+	})
 	var per []string
 	var got []byte
-	for _, k := range c12ParseNats(in[4]) {
-		p := make([]byte, k)
-		n, err := resp.Body.Read(p)
-		e := "n"
-		if err == io.EOF {
-			e = "e"
-		} else if err != nil {
-			e = "x"
+	readAll := func(body io.Reader) {
+		for _, k := range c12ParseNats(in[4]) {
+			p := make([]byte, k)
+			n, err := body.Read(p)
+			e := "n"
+			if err == io.EOF {
+				e = "e"
+			} else if err != nil {
+				e = "x"
+			}
+			per = append(per, fmt.Sprintf("%d:%s", n, e))
+			got = append(got, p[:n]...)
 		}
-		per = append(per, fmt.Sprintf("%d:%s", n, e))
-		got = append(got, p[:n]...)
 	}
-	_ = resp.Body.Close()
+	if way := c10Pick(in, 4); way == 0 {
+		tr := client.KeepAliveTransport(script)
+		req := &http.Request{Method: "GET", URL: &url.URL{Scheme: "http", Host: "x", Path: "/"}}
+		if resp, err := tr.RoundTrip(req); err == nil {
+			_, _ = io.Copy(io.Discard, resp.Body) // the end of THAT body has been seen
+			_ = resp.Body.Close()
+		}
+		resp, err := tr.RoundTrip(req)
+		if err != nil {
+			panic(err)
+		}
+		readAll(resp.Body)
+		_ = resp.Body.Close()
+	} else {
+		first = false
+		var rt *client.Runtime
+		switch way {
+		case 1:
+			rt = client.New("x", "/", []string{"http"})
+			rt.Transport = script
+		case 2:
+			rt = client.NewWithClient("x", "/", []string{"http"}, &http.Client{Transport: script})
+		default:
+			rt = client.NewWithClient("x", "/", []string{"http"}, &http.Client{})
+			rt.Transport = script
+		}
+		rt.EnableConnectionReuse()
+		_, err := rt.Submit(&runtime.ClientOperation{ID: "c12d", Method: "GET", PathPattern: "/", Schemes: []string{"http"},
+			Params: runtime.ClientRequestWriterFunc(func(runtime.ClientRequest, strfmt.Registry) error { return nil }),
+			Reader: runtime.ClientResponseReaderFunc(func(resp runtime.ClientResponse, _ runtime.Consumer) (interface{}, error) {
+				readAll(resp.Body())
+				return nil, nil
+			})})
+		if err != nil {
+			panic(err)
+		}
+	}
 	ps := "g"
 	if len(per) > 0 {
 		ps = strings.Join(per, ",")
@@ -466,6 +514,7 @@ func c12Ctx(kind string) (context.Context, context.CancelFunc) {
 }
 
 type c12Wire struct {
+	opts      c12Opts
 	p         *c12Plan
 	cancel    func()
 	abort     chan struct{} // closed by the watchdog when the call did not return in time
@@ -567,8 +616,17 @@ func (w *c12Wire) RoundTrip(req *http.Request) (*http.Response, error) {
 		}
 	}
 	w.body = b
-	return &http.Response{StatusCode: 200, Status: "200 OK", Proto: "HTTP/1.1", ProtoMajor: 1, ProtoMinor: 1,
-		Header: http.Header{"Content-Type": {c12RespType(p)}}, Body: b, ContentLength: -1, Request: req}, nil
+	ct, status := c12RespType(p), 200
+	if !c12Dumped(p) {
+		// any status, any spelling of the media type (none: the Runtime's default): the response reader is asked
+		ct, status = w.opts.contentType, w.opts.status
+	}
+	hdr := http.Header{"Content-Type": {ct}}
+	if ct == "" {
+		hdr = http.Header{}
+	}
+	return &http.Response{StatusCode: status, Status: strconv.Itoa(status) + " " + http.StatusText(status), Proto: "HTTP/1.1", ProtoMajor: 1, ProtoMinor: 1,
+		Header: hdr, Body: b, ContentLength: -1, Request: req}, nil
 }
 
 // c12RealServer answers like the plan says, over a real socket.
@@ -613,8 +671,51 @@ func c12RealServer(p *c12Plan, release chan struct{}) *httptest.Server {
 	}))
 }
 
+// c12Opts: what a plan leaves open and the case's own fields decide (a hash of the line) — choices that make no
+// difference to how the call must go: a Runtime that has completed another exchange before (before or after
+// EnableConnectionReuse), the auth writer given as Runtime.DefaultAuthentication, a request timeout equal to
+// client.DefaultTimeout left unset, caller's contexts wrapped in contexts that carry values, the HTTP method, the
+// status and the spelling of the Content-Type of the response, the Go type behind the buffered payload and
+// behind the upload files.
+type c12Opts struct {
+	warm, warmAfterReuse, defaultAuth, leaveDefaultTimeout, wrapCtx bool
+	method, contentType                                                string
+	status, buffered                                                   int
+	ownFileType                                                        bool
+}
+
+func c12OptsOf(in []string) c12Opts {
+	h := c10Pick(in, 1<<22)
+	return c12Opts{
+		warm: h%3 == 0, warmAfterReuse: (h>>2)%2 == 1, defaultAuth: (h>>3)%2 == 1, leaveDefaultTimeout: (h>>4)%2 == 1, wrapCtx: (h>>5)%2 == 1,
+		method:      []string{"POST", "PUT", "PATCH", "DELETE", "POST", "post", "GET", "OPTIONS"}[(h>>6)%8],
+		contentType: []string{"application/octet-stream", "application/octet-stream; charset=utf-8", "APPLICATION/Octet-Stream", ""}[(h>>9)%4],
+		status:      []int{200, 200, 201, 202, 400, 404, 500, 503}[(h>>11)%8],
+		buffered:    (h >> 14) % 3, ownFileType: (h>>16)%2 == 1,
+	}
+}
+
+// c12Switch lets a Runtime's transport be exchanged after the Runtime has made its http.Client from it.
+type c12Switch struct{ cur http.RoundTripper }
+
+func (s *c12Switch) RoundTrip(r *http.Request) (*http.Response, error) { return s.cur.RoundTrip(r) }
+
+// c12OwnFile: an upload that is a NamedReadCloser by itself (not made by runtime.NamedReader)
+type c12OwnFile struct {
+	*c12Src
+	name string
+}
+
+func (f c12OwnFile) Name() string { return f.name }
+
+type c12CtxKey struct{}
+
 func c12ExecF(in []string) []string {
 	p := c12ParsePlan(in)
+	opts := c12OptsOf(in)
+	if p.real && !runtime.CanHaveBody(opts.method) {
+		opts.method = "PUT" // over a real socket net/http may send a request of an idempotent method again
+	}
 	log.SetOutput(io.Discard) // logClose reports through the standard logger
 
 	var files []*c12Src
@@ -630,6 +731,16 @@ func c12ExecF(in []string) []string {
 	rtCtx, rtCancel := c12Ctx(p.rtCtx)
 	defer opCancel()
 	defer rtCancel()
+	// what the call is given: the contexts themselves, or contexts derived from them that carry a value
+	opCtxGiven, rtCtxGiven := opCtx, rtCtx
+	if opts.wrapCtx {
+		if opCtx != nil {
+			opCtxGiven = context.WithValue(opCtx, c12CtxKey{}, "operation")
+		}
+		if rtCtx != nil {
+			rtCtxGiven = context.WithValue(rtCtx, c12CtxKey{}, "runtime")
+		}
+	}
 	callerCancel := func() {
 		opCancel()
 		rtCancel()
@@ -641,6 +752,8 @@ func c12ExecF(in []string) []string {
 	var srv *httptest.Server
 	release := make(chan struct{})
 	var realBody *c12RealBody
+	var opClient *http.Client
+	reuseDone := false
 	if p.real {
 		if p.tr == 'e' {
 			// a port nobody listens on
@@ -656,6 +769,7 @@ func c12ExecF(in []string) []string {
 			host = u.Host
 		}
 		rtr = client.New(host, "/", []string{"http"})
+		rtr.Context = rtCtxGiven
 		tr := &http.Transport{DisableKeepAlives: !p.reuse}
 		defer tr.CloseIdleConnections()
 		rtr.Transport = c12RTFunc(func(req *http.Request) (*http.Response, error) {
@@ -682,22 +796,59 @@ func c12ExecF(in []string) []string {
 			return resp, nil
 		})
 	} else {
-		// three ways of giving the Runtime its wire (EnableConnectionReuse treats them differently):
+		// four ways of giving the call its wire (EnableConnectionReuse treats them differently):
 		// Runtime.Transport; a preset http.Client with the transport; a preset http.Client without one
-		// (the last one reaches Runtime.Transport only through EnableConnectionReuse)
-		v := (p.form + len(p.files) + p.readN) % 3
+		// (the last one reaches Runtime.Transport only through EnableConnectionReuse); the operation's
+		// own http.Client (which EnableConnectionReuse does not touch: the caller wraps its transport
+		// with client.KeepAliveTransport himself, and the Runtime's transport must not be asked)
+		sw := &c12Switch{cur: wire}
+		v := (p.form + len(p.files) + p.readN) % 4
 		switch {
 		case v == 1:
-			rtr = client.NewWithClient(host, "/", []string{"http"}, &http.Client{Transport: wire})
+			rtr = client.NewWithClient(host, "/", []string{"http"}, &http.Client{Transport: sw})
 		case v == 2 && p.reuse:
 			rtr = client.NewWithClient(host, "/", []string{"http"}, &http.Client{})
-			rtr.Transport = wire
+			rtr.Transport = sw
+		case v == 3:
+			rtr = client.New(host, "/", []string{"http"})
+			rtr.Transport = c12RTFunc(func(*http.Request) (*http.Response, error) { return nil, errors.New("c12: not this transport") })
+			opClient = &http.Client{Transport: wire}
+			if p.reuse {
+				opClient.Transport = client.KeepAliveTransport(wire)
+			}
 		default:
 			rtr = client.New(host, "/", []string{"http"})
-			rtr.Transport = wire
+			rtr.Transport = sw
+		}
+		rtr.Context = rtCtxGiven
+		if opts.warm && v != 3 {
+			// the Runtime has completed an exchange before (over a wire without faults, under a context of its
+			// own), before or after connection reuse is switched on
+			sw.cur = c12RTFunc(func(req *http.Request) (*http.Response, error) {
+				if req.Body != nil {
+					_, _ = io.Copy(io.Discard, req.Body)
+					_ = req.Body.Close()
+				}
+				return &http.Response{StatusCode: 200, Status: "200 OK", Proto: "HTTP/1.1", ProtoMajor: 1, ProtoMinor: 1,
+					Header: http.Header{"Content-Type": {runtime.DefaultMime}}, Body: io.NopCloser(strings.NewReader("before")), Request: req}, nil
+			})
+			if p.reuse && (!opts.warmAfterReuse || v == 2) { // (v == 2: without it that client has no transport of ours yet)
+				rtr.EnableConnectionReuse()
+				reuseDone = true
+			}
+			rtr.Consumers[runtime.DefaultMime] = runtime.ByteStreamConsumer()
+			_, _ = rtr.Submit(&runtime.ClientOperation{ID: "before", Method: "PUT", PathPattern: "/before", Schemes: []string{"http"}, Context: context.Background(),
+				Params: runtime.ClientRequestWriterFunc(func(req runtime.ClientRequest, _ strfmt.Registry) error {
+					_ = req.SetTimeout(time.Hour)
+					return req.SetBodyParam(map[string]string{"an exchange": "before"})
+				}),
+				Reader: runtime.ClientResponseReaderFunc(func(resp runtime.ClientResponse, _ runtime.Consumer) (interface{}, error) {
+					_, err := io.Copy(io.Discard, resp.Body())
+					return nil, err
+				})})
+			sw.cur = wire
 		}
 	}
-	rtr.Context = rtCtx
 	rtr.Debug = false
 	if c12Dumped(p) {
 		// Debug with a printable response type: Submit dumps the response (reading the whole body) before
@@ -706,10 +857,11 @@ func c12ExecF(in []string) []string {
 		rtr.Debug = true
 		rtr.Consumers["text/plain"] = runtime.ByteStreamConsumer()
 	}
-	if p.reuse {
+	if p.reuse && !reuseDone {
 		rtr.EnableConnectionReuse()
 	}
 	rtr.Consumers[runtime.DefaultMime] = runtime.ByteStreamConsumer()
+	wire.opts = opts
 
 	mediaType := runtime.JSONMime
 	switch {
@@ -726,12 +878,15 @@ func c12ExecF(in []string) []string {
 	}
 
 	op := &runtime.ClientOperation{
-		ID: "c12", Method: http.MethodPost, PathPattern: pattern, Schemes: []string{"http"},
+		ID: "c12", Method: opts.method, PathPattern: pattern, Schemes: []string{"http"},
 		ConsumesMediaTypes: []string{mediaType}, ProducesMediaTypes: []string{runtime.DefaultMime},
-		Context: opCtx,
+		Context: opCtxGiven, Client: opClient,
 		Params: runtime.ClientRequestWriterFunc(func(req runtime.ClientRequest, _ strfmt.Registry) error {
-			if err := req.SetTimeout(time.Duration(p.timeoutMs) * time.Millisecond); err != nil {
-				return err
+			if to := time.Duration(p.timeoutMs) * time.Millisecond; to != client.DefaultTimeout || !opts.leaveDefaultTimeout {
+				// (a request starts out with client.DefaultTimeout)
+				if err := req.SetTimeout(to); err != nil {
+					return err
+				}
 			}
 			for i := 0; i < p.form; i++ {
 				if err := req.SetFormParam(fmt.Sprintf("f%d", i), "v"); err != nil {
@@ -742,6 +897,9 @@ func c12ExecF(in []string) []string {
 				named := make([]runtime.NamedReadCloser, len(files))
 				for i, f := range files {
 					named[i] = runtime.NamedReader(fmt.Sprintf("file%d.bin", i), f)
+					if opts.ownFileType && i%2 == 0 {
+						named[i] = c12OwnFile{f, fmt.Sprintf("dir/file%d.bin", i)}
+					}
 				}
 				if err := req.SetFileParam("file", named...); err != nil {
 					return err
@@ -749,7 +907,15 @@ func c12ExecF(in []string) []string {
 			}
 			switch p.payload {
 			case 'b':
-				_ = req.SetBodyParam(map[string]string{"a": "b"})
+				// a value for the producer, or bytes the caller has buffered himself
+				switch opts.buffered {
+				case 1:
+					_ = req.SetBodyParam(bytes.NewBufferString(`{"a":"b"}`))
+				case 2:
+					_ = req.SetBodyParam(strings.NewReader(`{"a":"b"}`))
+				default:
+					_ = req.SetBodyParam(map[string]string{"a": "b"})
+				}
 			case 'p':
 				_ = req.SetBodyParam(map[string]interface{}{"a": make(chan int)})
 			case 's':
@@ -789,6 +955,9 @@ func c12ExecF(in []string) []string {
 			}
 			return nil
 		})
+		if opts.defaultAuth {
+			rtr.DefaultAuthentication, op.AuthInfo = op.AuthInfo, nil
+		}
 	}
 
 	before := c12ClientGoroutines()
